@@ -1,4 +1,5 @@
 import HcipyVerif.Lemmas.NearField
+import HcipyVerif.Lemmas.FourierLinkC04
 
 /-!
 # C04 — near-field propagators are linear, passive, adjoint-backward and additive
@@ -388,5 +389,173 @@ example : ∃ P : FourierPair (Fin 2), P.c = 2 := by
       Matrix.cons_val_one, map_add, map_sub, map_div₀, map_ofNat]
     push_cast
     ring
+
+/-! ## hypothesis-free: `P` is the DFT of C01/C02
+
+`Lemmas/FourierLinkC04.lean` constructs the `FourierPair` from the specification of the FFT kernel that
+C01/C02 assume of numpy (`Model/FftIndex.lean`: `Fft.dft`; `Model/FftIndex2.lean`: `Fft.dft2`), with the
+kernels `kF M n = exp(-2πi n/M)`, `kB M n = exp(+2πi n/M)` (`Cfg.kerF`/`Cfg.kerB` at `T = expT`):
+
+* `dftPair2 My Mx hMy hMx : FourierPair (Fin My × Fin Mx)` has `F = fftn` (`dftPair2_F_eq_dft2`:
+  `F x (qy,qx) = Fft.dft2 My Mx (kF My) (kF Mx) (ext2 x) qy qx`), `Finv = ifftn` (`dftPair2_Finv_eq_dft2`:
+  `1/(My·Mx)` times `Fft.dft2` with the inverse kernels) and `c = My·Mx` (`dftPair2_c`);
+* `dftPair M hM : FourierPair (Fin M)` is the one-axis version (`F = fft`, `Finv = ifft`, `c = M`).
+
+Inverse, adjoint relation and linearity are *proved* there (root-of-unity orthogonality
+`Fft.char_sum_range` at `Complex.exp`), so the theorems below carry no hypothesis on the transform; the
+internal grid is `μ = Fin My × Fin Mx` (index `(iy, ix)`), any `My, Mx > 0`, and `e : ι → Fin My × Fin Mx`
+is the cut-out. -/
+
+section dft
+variable (My Mx : ℕ) (hMy : 0 < My) (hMx : 0 < Mx)
+
+theorem filter_linear_dft (e : ι → Fin My × Fin Mx) (D : Fin My × Fin Mx → ℂ) (a b : ℂ) (x y : ι → ℂ) :
+    filter (dftPair2 My Mx hMy hMx) e D (a • x + b • y)
+      = a • filter (dftPair2 My Mx hMy hMx) e D x + b • filter (dftPair2 My Mx hMy hMx) e D y :=
+  filter_linear _ e D a b x y
+
+theorem filter_adjoint_dft (e : ι → Fin My × Fin Mx) (D : Fin My × Fin Mx → ℂ) (x y : ι → ℂ) :
+    ip y (filter (dftPair2 My Mx hMy hMx) e D x) = ip (filterBackward (dftPair2 My Mx hMy hMx) e D y) x :=
+  filter_adjoint _ e D x y
+
+theorem filter_adjoint_weighted_dft (e : ι → Fin My × Fin Mx) (D : Fin My × Fin Mx → ℂ) (w : ℝ)
+    (x y : ι → ℂ) :
+    (w : ℂ) * ip y (filter (dftPair2 My Mx hMy hMx) e D x)
+      = (w : ℂ) * ip (filterBackward (dftPair2 My Mx hMy hMx) e D y) x :=
+  filter_adjoint_weighted _ e D w x y
+
+theorem filterT_adjoint_dft (e : ι → Fin My × Fin Mx) (D : Fin My × Fin Mx → ℂ) (x y : τ → ι → ℂ) :
+    ∑ t, ip (y t) (filterT (dftPair2 My Mx hMy hMx) e D x t)
+      = ∑ t, ip (filterT (dftPair2 My Mx hMy hMx) e (fun m => conj (D m)) y t) (x t) :=
+  filterT_adjoint _ e D x y
+
+theorem power_nonincreasing_dft {e : ι → Fin My × Fin Mx} (he : Function.Injective e)
+    {D : Fin My × Fin Mx → ℂ} (hD : ∀ m, ‖D m‖ ≤ 1) (x : ι → ℂ) :
+    nsq (filter (dftPair2 My Mx hMy hMx) e D x) ≤ nsq x :=
+  power_nonincreasing _ he hD x
+
+theorem power_nonincreasing_tensor_dft {e : ι → Fin My × Fin Mx} (he : Function.Injective e)
+    {D : Fin My × Fin Mx → ℂ} (hD : ∀ m, ‖D m‖ ≤ 1) (x : τ → ι → ℂ) :
+    ∑ t, nsq (filterT (dftPair2 My Mx hMy hMx) e D x t) ≤ ∑ t, nsq (x t) :=
+  power_nonincreasing_tensor _ he hD x
+
+theorem fresnel_power_nonincreasing_dft {e : ι → Fin My × Fin Mx} (he : Function.Injective e)
+    {σ : Type*} (S : Fin My × Fin Mx → Finset σ) (k z : ℝ) (kx ky : Fin My × Fin Mx → σ → ℝ)
+    (x : ι → ℂ) :
+    nsq (filter (dftPair2 My Mx hMy hMx) e
+      (fun m => meanOver (S m) (fun s => fresnelD k z (kx m s) (ky m s))) x) ≤ nsq x :=
+  fresnel_power_nonincreasing _ he S k z kx ky x
+
+theorem angular_power_nonincreasing_dft {e : ι → Fin My × Fin Mx} (he : Function.Injective e)
+    {σ : Type*} (S : Fin My × Fin Mx → Finset σ) (k z : ℝ) (κ2 : Fin My × Fin Mx → σ → ℝ) (x : ι → ℂ) :
+    nsq (filter (dftPair2 My Mx hMy hMx) e
+      (fun m => meanOver (S m) (fun s => angularD k z (κ2 m s))) x) ≤ nsq x :=
+  angular_power_nonincreasing _ he S k z κ2 x
+
+theorem fresnel_neg_z_forward_eq_backward_dft (e : ι → Fin My × Fin Mx) {σ : Type*}
+    (S : Fin My × Fin Mx → Finset σ) (k z : ℝ) (kx ky : Fin My × Fin Mx → σ → ℝ) (x : ι → ℂ) :
+    filter (dftPair2 My Mx hMy hMx) e
+        (fun m => meanOver (S m) (fun s => fresnelD k (-z) (kx m s) (ky m s))) x
+      = filterBackward (dftPair2 My Mx hMy hMx) e
+        (fun m => meanOver (S m) (fun s => fresnelD k z (kx m s) (ky m s))) x :=
+  fresnel_neg_z_forward_eq_backward _ e S k z kx ky x
+
+theorem angular_neg_z_forward_eq_backward_dft (e : ι → Fin My × Fin Mx) {σ : Type*}
+    (S : Fin My × Fin Mx → Finset σ) (k z : ℝ) (κ2 : Fin My × Fin Mx → σ → ℝ) (x : ι → ℂ) :
+    filter (dftPair2 My Mx hMy hMx) e (fun m => meanOver (S m) (fun s => angularD k (-z) (κ2 m s))) x
+      = filterBackward (dftPair2 My Mx hMy hMx) e
+        (fun m => meanOver (S m) (fun s => angularD k z (κ2 m s))) x :=
+  angular_neg_z_forward_eq_backward _ e S k z κ2 x
+
+theorem filter_unitary_dft {e : ι → Fin My × Fin Mx} (he : Function.Bijective e)
+    {D : Fin My × Fin Mx → ℂ} (hD : ∀ m, ‖D m‖ = 1) (x : ι → ℂ) :
+    nsq (filter (dftPair2 My Mx hMy hMx) e D x) = nsq x :=
+  filter_unitary _ he hD x
+
+theorem filter_backward_inverse_dft {e : ι → Fin My × Fin Mx} (he : Function.Bijective e)
+    {D : Fin My × Fin Mx → ℂ} (hD : ∀ m, ‖D m‖ = 1) (x : ι → ℂ) :
+    filterBackward (dftPair2 My Mx hMy hMx) e D (filter (dftPair2 My Mx hMy hMx) e D x) = x :=
+  filter_backward_inverse _ he hD x
+
+theorem fresnel_unitary_dft {e : ι → Fin My × Fin Mx} (he : Function.Bijective e) (k z : ℝ)
+    (kx ky : Fin My × Fin Mx → ℝ) (x : ι → ℂ) :
+    nsq (filter (dftPair2 My Mx hMy hMx) e (fun m => fresnelD k z (kx m) (ky m)) x) = nsq x :=
+  fresnel_unitary _ he k z kx ky x
+
+theorem fresnel_backward_inverse_dft {e : ι → Fin My × Fin Mx} (he : Function.Bijective e) (k z : ℝ)
+    (kx ky : Fin My × Fin Mx → ℝ) (x : ι → ℂ) :
+    filterBackward (dftPair2 My Mx hMy hMx) e (fun m => fresnelD k z (kx m) (ky m))
+      (filter (dftPair2 My Mx hMy hMx) e (fun m => fresnelD k z (kx m) (ky m)) x) = x :=
+  fresnel_backward_inverse _ he k z kx ky x
+
+theorem fresnel_additive_dft {e : ι → Fin My × Fin Mx} (he : Function.Bijective e) (k z₁ z₂ : ℝ)
+    (kx ky : Fin My × Fin Mx → ℝ) (x : ι → ℂ) :
+    filter (dftPair2 My Mx hMy hMx) e (fun m => fresnelD k z₂ (kx m) (ky m))
+        (filter (dftPair2 My Mx hMy hMx) e (fun m => fresnelD k z₁ (kx m) (ky m)) x)
+      = filter (dftPair2 My Mx hMy hMx) e (fun m => fresnelD k (z₁ + z₂) (kx m) (ky m)) x :=
+  fresnel_additive _ he k z₁ z₂ kx ky x
+
+/-- The unpadded 2-D case with the identity cut-out: `fftn`-based Fresnel propagation on the grid itself is
+unitary (Parseval for `Fft.dft2`, through the filter). -/
+theorem fresnel_unitary_dft_id (k z : ℝ) (kx ky : Fin My × Fin Mx → ℝ) (x : Fin My × Fin Mx → ℂ) :
+    nsq (filter (dftPair2 My Mx hMy hMx) id (fun m => fresnelD k z (kx m) (ky m)) x) = nsq x :=
+  fresnel_unitary _ Function.bijective_id k z kx ky x
+
+end dft
+
+/-! ### one axis (`fft` / `ifft`, `c = M`) -/
+
+section dft1
+variable (M : ℕ) (hM : 0 < M)
+
+theorem filter_linear_dft1 (e : ι → Fin M) (D : Fin M → ℂ) (a b : ℂ) (x y : ι → ℂ) :
+    filter (dftPair M hM) e D (a • x + b • y)
+      = a • filter (dftPair M hM) e D x + b • filter (dftPair M hM) e D y :=
+  filter_linear _ e D a b x y
+
+theorem filter_adjoint_dft1 (e : ι → Fin M) (D : Fin M → ℂ) (x y : ι → ℂ) :
+    ip y (filter (dftPair M hM) e D x) = ip (filterBackward (dftPair M hM) e D y) x :=
+  filter_adjoint _ e D x y
+
+theorem power_nonincreasing_dft1 {e : ι → Fin M} (he : Function.Injective e) {D : Fin M → ℂ}
+    (hD : ∀ m, ‖D m‖ ≤ 1) (x : ι → ℂ) : nsq (filter (dftPair M hM) e D x) ≤ nsq x :=
+  power_nonincreasing _ he hD x
+
+theorem filter_unitary_dft1 {e : ι → Fin M} (he : Function.Bijective e) {D : Fin M → ℂ}
+    (hD : ∀ m, ‖D m‖ = 1) (x : ι → ℂ) : nsq (filter (dftPair M hM) e D x) = nsq x :=
+  filter_unitary _ he hD x
+
+theorem filter_backward_inverse_dft1 {e : ι → Fin M} (he : Function.Bijective e) {D : Fin M → ℂ}
+    (hD : ∀ m, ‖D m‖ = 1) (x : ι → ℂ) :
+    filterBackward (dftPair M hM) e D (filter (dftPair M hM) e D x) = x :=
+  filter_backward_inverse _ he hD x
+
+end dft1
+
+/-- `ifft (fft x) = x` for the DFT specification of `Model/FftIndex.lean`, any length `M > 0`. -/
+theorem ifft_fft_dft1 (M : ℕ) (hM : 0 < M) (x : Fin M → ℂ) (p : Fin M) :
+    (M : ℂ)⁻¹ * Fft.dft M (kB M) (ext fun q : Fin M => Fft.dft M (kF M) (ext x) (q : ℕ)) (p : ℕ) = x p :=
+  congrFun ((dftPair M hM).Finv_F x) p
+
+/-- `fft (ifft y) = y`. -/
+theorem fft_ifft_dft1 (M : ℕ) (hM : 0 < M) (y : Fin M → ℂ) (q : Fin M) :
+    Fft.dft M (kF M) (ext fun p : Fin M => (M : ℂ)⁻¹ * Fft.dft M (kB M) (ext y) (p : ℕ)) (q : ℕ) = y q :=
+  congrFun ((dftPair M hM).F_Finv y) q
+
+/-- Parseval for the DFT specification itself: `Σ_q |fft x q|² = M · Σ_p |x p|²`. -/
+theorem parseval_dft1 (M : ℕ) (hM : 0 < M) (x : Fin M → ℂ) :
+    nsq (fun q : Fin M => Fft.dft M (kF M) (ext x) (q : ℕ)) = (M : ℝ) * nsq x :=
+  (dftPair M hM).nsq_F x
+
+/-- Parseval for `fftn` (`Fft.dft2`): `Σ |fftn x|² = My·Mx · Σ |x|²`. -/
+theorem parseval_dft2 (My Mx : ℕ) (hMy : 0 < My) (hMx : 0 < Mx) (x : Fin My × Fin Mx → ℂ) :
+    nsq (fun q : Fin My × Fin Mx => Fft.dft2 My Mx (kF My) (kF Mx) (ext2 x) (q.1 : ℕ) (q.2 : ℕ))
+      = ((My * Mx : ℕ) : ℝ) * nsq x := by
+  have h := (dftPair2 My Mx hMy hMx).nsq_F x
+  rw [dftPair2_c] at h
+  rw [← h]
+  congr 1
+  funext q
+  exact (dftPair2_F_eq_dft2 My Mx hMy hMx x q.1 q.2).symm
 
 end HcipyVerif.NearField
